@@ -24,6 +24,7 @@ void (* simk_on_poll)(struct pollfd *, nfds_t, int, int, uint64_t, uint64_t) = N
 void (* simk_on_poll_entry)(struct pollfd *, nfds_t, int) = NULL;
 void (* simk_on_deadlock)(void) = NULL;
 uint64_t simk_busy_limit = 0;
+int simk_fd_floor = 0;
 void (* simk_on_busy)(void) = NULL;
 void (* simk_on_world_change)(int, const char *, long) = NULL;
 uint64_t simk_poll_oversleep_us = 0;
@@ -76,6 +77,7 @@ simk_reset(uint64_t seed)
 		}
 		memset(&simk_fds[i], 0, sizeof(simk_fds[i]));
 	}
+	hifd = 0;
 	nflips = 0;
 	vh_seed(&rng, seed, 77);
 	simk_p_poll_eintr = 0;
@@ -90,6 +92,15 @@ rawfd(void)
 
 	if (fd < 0)
 		vh_die("cannot open /dev/null: %s", strerror(errno));
+	/* descriptor numbers at or above simk_fd_floor, if one is set */
+	if (simk_fd_floor > fd && simk_fd_floor < SIMK_MAXFD - 64) {
+		int hi = fcntl(fd, F_DUPFD, simk_fd_floor);
+
+		if (hi < 0)
+			vh_die("F_DUPFD: %s", strerror(errno));
+		__real_close(fd);
+		fd = hi;
+	}
 	if (fd >= SIMK_MAXFD)
 		vh_die("descriptor %d too large for the simulator", fd);
 	return (fd);
@@ -121,6 +132,8 @@ simk_closefd(int fd)
 		__real_close(fd);
 	vh_free(f->out_buf);
 	memset(f, 0, sizeof(*f));
+	while (hifd > 0 && !simk_fds[hifd - 1].inuse)
+		hifd--;
 }
 
 void
